@@ -403,9 +403,35 @@ void Runner::final_checks() {
   }
 }
 
+// ------------------------------------------------------------------ library statics
+// reproc's own .data/.bss live in the sections reproc_data / reproc_bss (see bin/build.sh).  They are restored to their
+// load-time image before every plan, so state a change to the library keeps in a static cannot leak from one plan into
+// the next and a plan stays a pure function of its JSON.
+extern "C" {
+extern char __start_reproc_data[] __attribute__((weak));
+extern char __stop_reproc_data[] __attribute__((weak));
+extern char __start_reproc_bss[] __attribute__((weak));
+extern char __stop_reproc_bss[] __attribute__((weak));
+}
+static std::vector<char> g_img_data, g_img_bss;
+static bool g_img_saved = false;
+
+static void library_statics_reset() {
+  char *d0 = __start_reproc_data, *d1 = __stop_reproc_data, *b0 = __start_reproc_bss, *b1 = __stop_reproc_bss;
+  if (!g_img_saved) {
+    if (d0 && d1 > d0) { g_img_data.resize((size_t) (d1 - d0)); coro_raw_copy(g_img_data.data(), d0, g_img_data.size()); }
+    if (b0 && b1 > b0) { g_img_bss.resize((size_t) (b1 - b0)); coro_raw_copy(g_img_bss.data(), b0, g_img_bss.size()); }
+    g_img_saved = true;
+    return;
+  }
+  if (!g_img_data.empty()) coro_raw_copy(d0, g_img_data.data(), g_img_data.size());
+  if (!g_img_bss.empty()) coro_raw_copy(b0, g_img_bss.data(), g_img_bss.size());
+}
+
 // ------------------------------------------------------------------ entry
 RunResult run_plan(const Plan &plan, const RunOpts &opts) {
   if (!K) K = new Kernel();
+  library_statics_reset();
   Runner r(plan, opts);
   G = &r;
   r.setup();
